@@ -214,6 +214,23 @@ structure Prims.DammitQuiet {V : Type} (code : Code) (P : Prims V) (encs : List 
   decode : ∀ c b x, P.decode c b = .error x → catches code.convertFrom x = true
   log : P.logWarning = .ok ()
 
+/-- `UnicodeDammit._to_unicode` (dammit.py:1013-1030) as repaired: CPython's `str(b"", codec, errors)` returns `""` WITHOUT
+    looking the codec up, so for data that is empty (a document that is only a byte-order mark) the name is first checked
+    with `"".encode(codec)` (`encodeEmpty`: `LookupError` for a name that is no text codec). `P.decode` stays CPython's
+    `str(data, codec, errors)`. -/
+def guardedDecode (encodeEmpty : Nat → Except Err Unit) (decode : Nat → Bool → Except Err PStr) (empty : Bool)
+    (c : Nat) (b : Bool) : Except Err PStr :=
+  if empty then
+    match encodeEmpty c with
+    | .error x => .error x
+    | .ok () => decode c b
+  else decode c b
+
+/-- the primitives as `_convert_from` sees them through the repaired `_to_unicode`; `empty` = the data is empty once the
+    byte-order mark is stripped -/
+def Prims.withEmptyGuard {V : Type} (P : Prims V) (encodeEmpty : Nat → Except Err Unit) (empty : Bool) : Prims V :=
+  { P with decode := guardedDecode encodeEmpty P.decode empty }
+
 /-! ### the beginner heuristics with the warning call -/
 
 def heuristicsE {V : Type} (code : Code) (P : Prims V) (m : Markup) : Except Err Warning :=
